@@ -14,7 +14,7 @@ structure DSt where
   n : Nat := 0
   cap : Nat := 0
   /-- (name, source type, context) in program order -/
-  streams : List (String × String × Nat) := []
+  streams : List (SDecl String) := []
   st : St Unit String := init [] (fun _ => ())
   /-- records that must come next (sub-steps of one model step) -/
   expect : List String := []
@@ -29,28 +29,8 @@ structure DSt where
 
 def tyOf (key : String) : String := (key.splitOn "#").headD ""
 
-/-- context of the stream that produces this type (none for raw event types) -/
-def ownerOf (streams : List (String × String × Nat)) (ty : String) : Option Nat :=
-  (streams.find? (fun s => s.1 == ty)).map (fun s => s.2.2)
-
-/-- `build_with_checkpoint`, ingress routing passes 1 and 2: a type is routed to the context of
-the last stream (program order) that consumes it from *another* context than its producer's
-(a stream of the same context is fed inside the engine) -/
-def routeTy (streams : List (String × String × Nat)) (ty : String) : Option Nat :=
-  ((streams.filter (fun s => s.2.1 == ty && ownerOf streams ty != some s.2.2)).getLast?).map (fun s => s.2.2)
-
-def routeOf (streams : List (String × String × Nat)) (key : String) : Option Nat :=
+def routeOf (streams : List (SDecl String)) (key : String) : Option Nat :=
   routeTy streams (tyOf key)
-
-/-- finding `C26-one-context-per-type`: the stream consumes a type that is routed to a different
-context (the routing table holds one context per type), so it never sees an event -/
-def starved (streams : List (String × String × Nat)) (s : String × String × Nat) : Bool :=
-  ownerOf streams s.2.1 != some s.2.2 && routeTy streams s.2.1 != some s.2.2
-
-/-- streams downstream of a set of streams (fuel = number of streams) -/
-def closure (streams : List (String × String × Nat)) (seed : List String) : List String :=
-  (List.range streams.length).foldl (fun acc _ =>
-    acc ++ ((streams.filter (fun s => acc.contains s.2.1 && !acc.contains s.1)).map (·.1))) seed
 
 def mkNet (d : DSt) (outs : List String) : Net Unit String :=
   { n := d.n, cap := d.cap, blocking := false, route := routeOf d.streams, dflt := 0,
@@ -114,7 +94,8 @@ def step (d : DSt) (line : String) : DSt × String :=
   match words op with
   | "new" :: n :: cap :: _ =>
     ({ n := n.toNat?.getD 0, cap := cap.toNat?.getD 0 }, "")
-  | ["stream", name, src, c] => ({ d with streams := d.streams ++ [(name, src, c.toNat?.getD 0)] }, "")
+  | ["stream", name, src, c] =>
+    ({ d with streams := d.streams ++ [{ name := name, src := src, ctx := c.toNat?.getD 0 }] }, "")
   | [] => (d, "")
   | ws =>
     -- sub-records of a model step (snapshot, ack, completion) must come exactly when expected
@@ -210,9 +191,9 @@ def step (d : DSt) (line : String) : DSt × String :=
           | some w => s!"stream {w.1}: without contexts {w.2}, with contexts {gotOf w.1}"
           | none => "stream sets differ"
         -- streams that the single-context-per-type routing starves, and everything downstream
-        let starvedCl := closure d.streams ((d.streams.filter (starved d.streams)).map (·.1))
+        let starvedCl := downstream d.streams ((d.streams.filter (starved d.streams)).map (·.name))
         -- streams that consume a type of which an event was dropped, and everything downstream
-        let dropCl := closure d.streams ((d.streams.filter (fun s => d.dropped.contains s.2.1)).map (·.1))
+        let dropCl := downstream d.streams ((d.streams.filter (fun s => d.dropped.contains s.src)).map (·.name))
         let isStarved (w : String × List String) : Bool := starvedCl.contains w.1 && gotOf w.1 == []
         if want.length != got.length then (d, s!"JUDGE {show1}")
         else if bad.all isStarved then
@@ -225,7 +206,7 @@ def step (d : DSt) (line : String) : DSt × String :=
       let got := parseStreams (words impl)
       let gotOf (n : String) : List String := ((got.find? (fun g => g.1 == n)).map (·.2)).getD []
       -- streams downstream of an event dropped by a failed try_send are C26's subject, not C27's
-      let dropCl := closure d.streams ((d.streams.filter (fun s => d.dropped.contains s.2.1)).map (·.1))
+      let dropCl := downstream d.streams ((d.streams.filter (fun s => d.dropped.contains s.src)).map (·.name))
       let bad := want.filter (fun w => gotOf w.1 != w.2 && !dropCl.contains w.1)
       if want.length != got.length then (d, "JUDGE restore: stream sets differ")
       else if bad.isEmpty then (d, if dropCl.isEmpty then "ok" else "SKIP")
